@@ -40,7 +40,10 @@ BUILDS = {
     # the non-default `multicast` feature changes the signatures the MAC-level harnesses call:
     # only the front-end harness files that are written for it are overlaid in this build
     "dev-eu868-mc": dict(_dev("region-eu868,multicast", "eu868"),
-                         only_files=["async_common.rs", "async_mc_h.rs"]),
+                         only_files=["async_common.rs", "async_mc_h.rs"],
+                         # the crate's own multicast tests (compiled, not run, by the native
+                         # playback) need the class-c test fixtures
+                         playback_features=["class-c"]),
     "phy": dict(package="lora-phy", args=["--features", "lorawan-radio"], swap=True,
                 # cargo-kani drops `dep/feature` arguments: give the optional lorawan-device dependency
                 # its region features in the scratch copy's manifest instead (build config only)
